@@ -875,3 +875,127 @@ Proof.
   assert (run_t ops1 = run_t ops2) as Ht by (by rewrite <-(run_t_strip ops1), Heq, run_t_strip).
   split; [by rewrite Hv1, Hv2|]. intros o Ho. by rewrite Hr1, Hr2, Ht.
 Qed.
+
+(** ** Copy and move *)
+
+Lemma strip_Some (src p r : path) : strip src p = Some r ↔ p = r ++ src.
+Proof.
+  unfold strip. case_decide as H.
+  - destruct H as [k ->]. rewrite app_length, Nat.add_sub, take_app. split.
+    + by intros [= <-].
+    + by intros ->%(inj (.++ src)).
+  - split; [done|]. intros ->. destruct H. by eexists.
+Qed.
+
+Lemma rel_snap_elem {X} (T : gmap path X) (src r : path) e :
+  (r, e) ∈ omap (λ pe : path * X, (λ r, (r, pe.2)) <$> strip src pe.1) (map_to_list T)
+  ↔ T !! (r ++ src) = Some e.
+Proof.
+  rewrite elem_of_list_omap. split.
+  - intros ([p e'] & Hin & Hf). cbn in Hf. destruct (strip src p) as [r'|] eqn:Hs; [|done].
+    injection Hf as -> ->. apply strip_Some in Hs as ->. by apply elem_of_map_to_list in Hin.
+  - intros H. exists (r ++ src, e). split; [by apply elem_of_map_to_list|]. cbn.
+    by rewrite (proj2 (strip_Some src (r ++ src) r) eq_refl).
+Qed.
+
+Lemma rel_snap_lookup {X} (T : gmap path X) (src r : path) :
+  rel_snap T src !! r = T !! (r ++ src).
+Proof.
+  unfold rel_snap. destruct (T !! (r ++ src)) as [e|] eqn:HT.
+  - apply elem_of_list_to_map_1'; [|by apply rel_snap_elem].
+    intros y Hy%rel_snap_elem. congruence.
+  - apply not_elem_of_list_to_map_1. intros Hin.
+    apply elem_of_list_fmap in Hin as ([r' y] & -> & Hin). cbn in Hin.
+    apply rel_snap_elem in Hin. congruence.
+Qed.
+
+Lemma graft_snap_lookup (S : gmap path tentry) (dst r : path) :
+  t_graft_snap S dst !! (r ++ dst) = S !! r.
+Proof. unfold t_graft_snap. apply (lookup_kmap (λ r, r ++ dst)). Qed.
+
+Lemma graft_snap_None (S : gmap path tentry) (dst x : path) :
+  ¬ under dst x → t_graft_snap S dst !! x = None.
+Proof.
+  intros H. unfold t_graft_snap. apply (lookup_kmap_None (λ r, r ++ dst)).
+  intros r ->. destruct H. by eexists.
+Qed.
+
+Lemma to_raw_not_del b e : to_raw b e ≠ RDel.
+Proof. by destruct e. Qed.
+
+Lemma erase_to_raw (i : nat) b e : erase (Some (i, to_raw b e)) = Some e.
+Proof. by destruct e. Qed.
+
+Lemma scan_single (n : nat) (c : cont) (p : path) :
+  scan [(n, c)] p = (λ e, (n, e)) <$> c !! p.
+Proof. cbn. by destruct (c !! p) as [[| |[]]|]. Qed.
+
+(** Grafting a tree-shaped snapshot [S] at a fresh path [dst] whose parent is a visible group:
+    outside [dst] nothing changes, below [dst] exactly [S] is visible. *)
+Lemma graft_sub_status (n : nat) (c : cont) (rest : stack) (S : gmap path tentry) (b : bool)
+    s (dpar : path) lb bb :
+  let dst := s :: dpar in
+  let R := (n, c) :: rest in
+  let c' := graft (to_raw b <$> t_graft_snap S dst) c dst in
+  let R' := (n, c') :: rest in
+  top_ok n c rest →
+  status R dpar = Some (lb, RGroup bb) → holds dpar (RGroup bb) s = true →
+  status R dst = None →
+  (b = false → rest = []) →
+  is_Some (S !! []) →
+  (∀ t r e, S !! (t :: r) = Some e →
+     ∃ e', S !! r = Some e' ∧ holds (r ++ dst) (to_raw b e') t = true) →
+  (∀ x, ¬ under dst x → status R' x = status R x) ∧
+  (∀ r, status R' (r ++ dst) = (λ e, (n, to_raw b e)) <$> S !! r) ∧
+  top_ok n c' rest.
+Proof.
+  intros dst R c' R' (Hs & Hroot & Hvis) Hpar Hh Hfresh Hb [e0 He0] Hshape.
+  assert (Hanc : ∀ a, a ∈ ancestors dst → is_Some (status R a)).
+  { apply anc_vis. by rewrite Hpar. }
+  assert (HM : ∀ x, ¬ under dst x → (to_raw b <$> t_graft_snap S dst : cont) !! x = None).
+  { intros x Hx. by rewrite lookup_fmap, graft_snap_None. }
+  assert (Hframe : ∀ x, ¬ under dst x → status R' x = status R x).
+  { apply frame_status; [done|apply not_under_cons|]. intros x Hx.
+    apply graft_frame; [by apply HM|done|done]. }
+  assert (HcS : ∀ r e, S !! r = Some e → c' !! (r ++ dst) = Some (to_raw b e)).
+  { intros r e HS. unfold c'. by rewrite graft_lookup, lookup_fmap, graft_snap_lookup, HS. }
+  assert (HcN : ∀ r, S !! r = None →
+            c' !! (r ++ dst) = None ∨ c' !! (r ++ dst) = Some RDel).
+  { intros r HS. unfold c'. rewrite graft_lookup, lookup_fmap, graft_snap_lookup, HS. cbn.
+    destruct (c !! (r ++ dst)) as [e'|] eqn:Hce.
+    - destruct (decide (e' = RDel)) as [->|Hne]; [by right|].
+      destruct (Hvis _ _ Hce Hne) as [x Hx]. fold R in Hx.
+      rewrite (status_none_under R dst (r ++ dst)) in Hx; [done|done|by eexists].
+    - rewrite carr_lookup. case_decide as Ha; [|by left].
+      apply elem_of_ancestors in Ha as (_ & Hne & Ha).
+      exfalso. apply Hne. apply (anti_symm suffix); [done|by eexists]. }
+  assert (lb ≤ n) as Hlb by (eapply status_le; eauto).
+  assert (Hsub : ∀ r, status R' (r ++ dst) = (λ e, (n, to_raw b e)) <$> S !! r).
+  { induction r as [|t r IH].
+    - cbn [app]. unfold dst. rewrite status_cons, Hframe by apply suffix_cons_not.
+      rewrite Hpar, Hh. rewrite above_cons. case_decide; [|lia]. cbn [scan]. fold dst.
+      rewrite (HcS [] e0 He0), He0. cbn. destruct e0 as [v|]; cbn; [done|].
+      destruct b; [done|]. by rewrite (Hb eq_refl).
+    - cbn [app]. rewrite status_cons, IH.
+      destruct (S !! r) as [e'|] eqn:HSr; cbn.
+      + destruct (holds (r ++ dst) (to_raw b e') t) eqn:Hht.
+        * rewrite above_cons. case_decide; [|lia]. rewrite (above_idx_lt n) by done.
+          rewrite scan_single. change (t :: r ++ dst) with ((t :: r) ++ dst).
+          destruct (S !! (t :: r)) as [e|] eqn:HS.
+          -- rewrite (HcS _ _ HS). cbn. by destruct e.
+          -- destruct (HcN _ HS) as [-> | ->]; done.
+        * destruct (S !! (t :: r)) as [e|] eqn:HS; [|done].
+          destruct (Hshape _ _ _ HS) as (e'' & He'' & Hh''). congruence.
+      + destruct (S !! (t :: r)) as [e|] eqn:HS; [|done].
+        destruct (Hshape _ _ _ HS) as (e'' & He'' & _). congruence. }
+  split; [done|]. split; [done|]. split; [done|]. split.
+  - unfold c'. rewrite graft_lookup, HM, Hroot, carr_lookup by (by intros ?%suffix_nil_inv).
+    case_decide as Ha; [|done]. by apply elem_of_ancestors in Ha as (? & _).
+  - intros p e Hp Hne. fold R'. destruct (decide (under dst p)) as [[r ->]|Hu].
+    + rewrite Hsub. destruct (S !! r) as [e'|] eqn:HS; [done|].
+      destruct (HcN _ HS) as [Hn|Hn]; congruence.
+    + rewrite Hframe by done. unfold c' in Hp. rewrite graft_lookup, HM in Hp by done.
+      destruct (c !! p) as [e1|] eqn:Hcp.
+      * injection Hp as ->. by eapply Hvis.
+      * rewrite carr_lookup in Hp. case_decide; [|done]. by apply Hanc.
+Qed.
